@@ -25,11 +25,12 @@ func (c *Ctx) runPathsWith(fd *ast.FuncDecl, conf func(*SX)) ([]*Path, string) {
 		}
 	}
 	v := c.view(fd)
-	paths = v.collectNorm(v.windowNorm(v.flagNorm(paths)))
+	paths = v.countdownNorm(v.windowNorm(v.flagNorm(paths)))
+	paths = v.collectNorm(v.primitiveWriteNorm(v.sortNorm(paths)))
 	if c.quietHeap(fd, paths) {
 		paths = v.collapseEpochs(paths)
 	}
-	return v.normalizeMapKeyLoads(v.shadowKeyNorm(v.normalizePaths(paths))), ""
+	return v.normalizeMapKeyLoads(v.shadowKeyNorm(v.snapshotNorm(v.normalizePaths(paths)))), ""
 }
 
 // intHook builds a term hook for folding: integer parameters by object, the receiver's count as n, cap as n+3.
